@@ -835,6 +835,36 @@ func runCACHEKEY(c *Ctx) {
 				}
 			}
 		}
+		// the store access extracted into a private helper (`m.fetchNode(ctx, l)` around persist.Load): its Persist
+		// value and name, written as access paths over the helper's parameters, are rewritten into the terms of the call
+		if !matched && pfx.Parent() == outer {
+			wantP, wantN := ir.Sym(back(pfx.Call.Value)), ir.Sym(back(parts[1]))
+			if !strings.Contains(wantP, "@") && !strings.Contains(wantN, "@") {
+				for _, hc := range CallsOf(outer) {
+					h := privateHelperOf(c, hc)
+					if h == nil {
+						continue
+					}
+					for _, cj := range CallsOf(h) {
+						e := c.Facts.External(cj)
+						if e != "Persist.Load" && e != "Persist.Store" {
+							continue
+						}
+						ps, ok1 := symInCaller(h, hc.Common().Args, ir.Sym(cj.Common().Value))
+						ns, ok2 := symInCaller(h, hc.Common().Args, ir.Sym(cj.Common().Args[1]))
+						samePersist := ok1 && ps == wantP
+						sameName := ok2 && ns == wantN
+						if samePersist && sameName {
+							matched = true
+						} else if !samePersist {
+							other = "the prefix comes from a different Persist value than the one used for " + e + " (in " + h.Name() + ")"
+						} else {
+							other = "the name in the key is not the name passed to " + e + " (in " + h.Name() + ")"
+						}
+					}
+				}
+			}
+		}
 		if matched {
 			c.OK(pos, what, "key = Sprintf("+fs+", P.NodeURLPrefix(), name) with the same P and name as the Load/Store of "+ir.FuncName(outer), false)
 		} else {
@@ -935,6 +965,25 @@ func cacheAfterHolds(c *Ctx, fn *ssa.Function, at ssa.Instruction, depth int) (b
 			ok, via = true, e
 		}
 	}
+	// the store access extracted into a private helper (`nodeBytes, err := m.fetchNode(ctx, l)`): a nil error of the
+	// helper means the Load/Store inside it returned a nil error
+	for _, cj := range CallsOf(fn) {
+		h := privateHelperOf(c, cj)
+		if h == nil || ok {
+			continue
+		}
+		e := storeAccessWrapper(c, h)
+		if e == "" {
+			continue
+		}
+		errV, _ := lpErrorValue(cj)
+		if errV == nil {
+			continue
+		}
+		if (at.Block() == cj.Block() || cj.Block().Dominates(at.Block())) && nilFactOn(at.Block(), errV, true) {
+			ok, via = true, e+" (in "+h.Name()+")"
+		}
+	}
 	if ok || depth >= 2 {
 		return ok, via
 	}
@@ -947,6 +996,56 @@ func cacheAfterHolds(c *Ctx, fn *ssa.Function, at ssa.Instruction, depth int) (b
 		return k
 	})
 	return held, sites
+}
+
+// privateHelperOf: the callee of ci when it is a private helper of the repository (static call of an unexported,
+// named function with a body that is never used as a value).
+func privateHelperOf(c *Ctx, ci ssa.CallInstruction) *ssa.Function {
+	if _, isCall := ci.(*ssa.Call); !isCall {
+		return nil
+	}
+	h := ir.Callee(*ci.Common())
+	if h == nil || h.Blocks == nil || h.Parent() != nil || h.Object() == nil || h.Object().Exported() || c.Facts.addrTaken[h] ||
+		h.Pkg == nil || h.Pkg.Pkg.Path() != ir.MastPath || len(h.Params) != len(ci.Common().Args) {
+		return nil
+	}
+	return h
+}
+
+// storeAccessWrapper: h returns a nil error only after a Persist.Load / Persist.Store call of its own returned a nil
+// error — every return of h either lies on the nil-error edge of that call or carries a certainly non-nil error.
+// Returns the name of the access ("" if h is no such wrapper).
+func storeAccessWrapper(c *Ctx, h *ssa.Function) string {
+	ei := ir.ErrorResultIndex(h.Signature)
+	if ei < 0 {
+		return ""
+	}
+	for _, cj := range CallsOf(h) {
+		e := c.Facts.External(cj)
+		if e != "Persist.Load" && e != "Persist.Store" {
+			continue
+		}
+		errV, _ := lpErrorValue(cj)
+		if errV == nil {
+			continue
+		}
+		rets := ir.Returns(h)
+		all := len(rets) > 0
+		for _, r := range rets {
+			if ei >= len(r.Results) {
+				all = false
+				break
+			}
+			onNil := (r.Block() == cj.Block() || cj.Block().Dominates(r.Block())) && nilFactOn(r.Block(), errV, true)
+			if !onNil && lpErrClass(r.Results[ei], r.Block(), 0) != lpErrNonNil {
+				all = false
+			}
+		}
+		if all {
+			return e
+		}
+	}
+	return ""
 }
 
 func runCACHEAFTER(c *Ctx) {
